@@ -280,7 +280,7 @@ func c07(c *core.Ctx) {
 	}
 
 	// ---------------------------------------------------------------- R4
-	if c.Rule("R4", "no panic on any bytes: every index/slice expression in hand-written httpgrpc code is in range on all paths; unchecked type assertions are tabled", 1) {
+	if c.Rule("R4", "no panic on any bytes: every index/slice expression in hand-written httpgrpc code is in range on all paths; unchecked type assertions are tabled; the end of a message channel is told by the comma-ok result (an element compared with nil / empty only if no sender can send one)", 1) {
 		n := 0
 		for _, fn := range fns {
 			for _, ob := range core.BoundsOf(fn) {
@@ -295,6 +295,33 @@ func c07(c *core.Ctx) {
 				} else {
 					c.Fail(key, ob.Instr.Pos(), "index expression may be out of range: %s", ob.Why)
 				}
+			}
+			// the end of a message channel is recognised by the comma-ok result, never by the zero value of the
+			// element — unless no sender can send one (an empty message is a legitimate, possibly nil, element)
+			for _, rc := range nilableReceives(fn) {
+				n++
+				key := core.FuncName(fn) + ":recv(" + rc.key + "):closure-by-ok"
+				if !rc.zeroTested {
+					c.Ok(key, rc.pos, "the received element is not compared with nil / empty: closure is told by the ok result")
+					continue
+				}
+				bad := ""
+				sends := 0
+				for _, g := range fns {
+					for _, sv := range sendsOn(g, rc.key) {
+						sends++
+						if !core.AllOrigins(sv, func(o ssa.Value) bool {
+							switch o.(type) {
+							case *ssa.MakeSlice, *ssa.Alloc, *ssa.MakeMap, *ssa.MakeChan, *ssa.MakeClosure:
+								return !rc.lenTested
+							}
+							return false
+						}) {
+							bad = core.FuncName(g)
+						}
+					}
+				}
+				c.Check(bad == "" && sends > 0, key, rc.pos, "the element is compared with nil, and every sender sends a freshly made (non-nil) value", "the received element is compared with nil / empty (taken as \"channel closed\"), but "+bad+" can send such an element: an empty message is mistaken for the end of the stream (and the sanity check panics)")
 			}
 			// unchecked type assertions
 			core.Instrs(fn, func(in ssa.Instruction) {
@@ -623,4 +650,146 @@ func c07BufferProvenance(c *core.Ctx, fns []*ssa.Function) {
 			}
 		})
 	}
+}
+
+type nilableRecv struct {
+	key        string // <type>.<field> of the channel
+	pos        token.Pos
+	zeroTested bool // the element is compared with nil, or its length with 0
+	lenTested  bool
+}
+
+func chanKeyOf(v ssa.Value) string {
+	base, f, ok := core.FieldOf(core.Strip(v))
+	if !ok {
+		return ""
+	}
+	return core.NamedOf(base.Type()) + "." + f
+}
+
+func nilableElem(t types.Type) bool {
+	ch, ok := t.Underlying().(*types.Chan)
+	if !ok {
+		return false
+	}
+	switch ch.Elem().Underlying().(type) {
+	case *types.Slice, *types.Pointer, *types.Map, *types.Interface, *types.Signature, *types.Chan:
+		return true
+	}
+	return false
+}
+
+// nilableReceives: receives in fn from a struct-field channel whose element
+// type has a nil value, and whether the received element is tested against
+// nil / empty.
+func nilableReceives(fn *ssa.Function) []nilableRecv {
+	var out []nilableRecv
+	tested := func(v ssa.Value) (zero, byLen bool) {
+		var walk func(v ssa.Value, depth int)
+		walk = func(v ssa.Value, depth int) {
+			if v == nil || depth > 3 {
+				return
+			}
+			for _, r := range core.Refs(v) {
+				switch x := r.(type) {
+				case *ssa.BinOp:
+					if (x.Op == token.EQL || x.Op == token.NEQ) && (core.IsNilConst(x.X) || core.IsNilConst(x.Y)) {
+						zero = true
+					}
+				case *ssa.Call:
+					if b, ok := x.Call.Value.(*ssa.Builtin); ok && b.Name() == "len" {
+						for _, lr := range core.Refs(x) {
+							if bo, ok := lr.(*ssa.BinOp); ok {
+								if k, isC := core.ConstInt(bo.Y); isC && k == 0 && (bo.Op == token.EQL || bo.Op == token.NEQ || bo.Op == token.GTR) {
+									zero, byLen = true, true
+								}
+							}
+						}
+					}
+				case *ssa.Phi:
+					walk(x, depth+1)
+				case *ssa.Store:
+					// a local cell: follow its loads
+					if al, ok := x.Addr.(*ssa.Alloc); ok && x.Val == v {
+						for _, lr := range core.Refs(al) {
+							if ld, ok := lr.(*ssa.UnOp); ok && ld.Op == token.MUL {
+								walk(ld, depth+1)
+							}
+						}
+					}
+				}
+			}
+		}
+		walk(v, 0)
+		return
+	}
+	core.Instrs(fn, func(in ssa.Instruction) {
+		switch x := in.(type) {
+		case *ssa.UnOp:
+			if x.Op != token.ARROW || !nilableElem(x.X.Type()) {
+				return
+			}
+			k := chanKeyOf(x.X)
+			if k == "" {
+				return
+			}
+			var v ssa.Value = x
+			if x.CommaOk {
+				v = nil
+				for _, r := range core.Refs(x) {
+					if ex, ok := r.(*ssa.Extract); ok && ex.Index == 0 {
+						v = ex
+					}
+				}
+			}
+			z, l := tested(v)
+			out = append(out, nilableRecv{k, x.Pos(), z, l})
+		case *ssa.Select:
+			ri := 0
+			for _, st := range x.States {
+				if st.Dir != types.RecvOnly {
+					continue
+				}
+				idx := 2 + ri
+				ri++
+				k := chanKeyOf(st.Chan)
+				if k == "" || !nilableElem(st.Chan.Type()) {
+					continue
+				}
+				var v ssa.Value
+				for _, r := range core.Refs(x) {
+					if ex, ok := r.(*ssa.Extract); ok && ex.Index == idx {
+						v = ex
+					}
+				}
+				z, l := tested(v)
+				pos := st.Pos
+				if !pos.IsValid() {
+					pos = x.Pos()
+				}
+				out = append(out, nilableRecv{k, pos, z, l})
+			}
+		}
+	})
+	return out
+}
+
+// sendsOn: the values sent in fn on the channel field key.
+func sendsOn(fn *ssa.Function, key string) []ssa.Value {
+	var out []ssa.Value
+	core.Instrs(fn, func(in ssa.Instruction) {
+		switch x := in.(type) {
+		case *ssa.Send:
+			if chanKeyOf(x.Chan) == key {
+				out = append(out, x.X)
+			}
+		case *ssa.Select:
+			for _, st := range x.States {
+				if st.Dir == types.SendOnly && chanKeyOf(st.Chan) == key {
+					out = append(out, st.Send)
+				}
+			}
+		}
+	})
+	return out
 }
